@@ -580,15 +580,26 @@ Proof.
   - apply andb_true_iff in H. destruct H; auto.
 Qed.
 
-(* ---- unfolding the nested fixpoints of edges_value_s -------------------------------- *)
-Fixpoint elist (rel : list str) (i : nat) (l : list value) : list edge :=
-  match l with [] => [] | x :: l' => edges_value_s (rel ++ [dec i]) x ++ elist rel (S i) l' end.
-Definition groups (rel : list str) (l : list (str * value)) : list (str * list edge) :=
-  map (fun kx => (fst kx, edges_value_s (rel ++ [fst kx]) (snd kx))) l.
+Section EdgesM.
+  Variable metaf : nat -> bool.
 
-Lemma edges_value_list rel l : edges_value_s rel (VList l) = elist rel 0 l.
-Proof. simpl. generalize 0%nat. induction l as [|x l IH]; intros i; simpl; auto. f_equal. apply IH. Qed.
-Lemma edges_value_dict rel l : edges_value_s rel (VDict l) = concat (map snd (sort_keys (groups rel l))).
+(* ---- unfolding the nested fixpoints of edges_value_m metaf -------------------------------- *)
+Fixpoint elist (rel : list str) (i j : nat) (l : list value) : list edge :=
+  match l with
+  | [] => []
+  | x :: l' => if flagged metaf x then edges_value_m metaf (rel ++ [meta_key j]) x ++ elist rel i (S j) l'
+               else edges_value_m metaf (rel ++ [dec i]) x ++ elist rel (S i) j l'
+  end.
+Definition groups (rel : list str) (l : list (str * value)) : list (str * list edge) :=
+  map (fun kx => (fst kx, edges_value_m metaf (rel ++ [fst kx]) (snd kx))) l.
+
+Lemma edges_value_list rel l : edges_value_m metaf rel (VList l) = elist rel 0 0 l.
+Proof.
+  simpl. generalize 0%nat at 2 4. generalize 0%nat.
+  induction l as [|x l IH]; intros i j; simpl; auto.
+  destruct (flagged metaf x); f_equal; apply IH.
+Qed.
+Lemma edges_value_dict_m rel l : edges_value_m metaf rel (VDict l) = concat (map snd (sort_keys (groups rel l))).
 Proof.
   simpl. do 3 f_equal. unfold groups. induction l as [|[k x] l IH]; simpl; auto. f_equal. apply IH.
 Qed.
@@ -606,41 +617,86 @@ Proof.
   rewrite insert_key_In, IH. split; intros [H|H]; auto.
 Qed.
 
-Lemma elist_In rel : forall l i e, In e (elist rel i l) <->
-  exists j x, nth_error l j = Some x /\ In e (edges_value_s (rel ++ [dec (i + j)]) x).
+Lemma elist_In rel : forall l i j e, In e (elist rel i j l) <->
+  exists p x k, nth_error l p = Some x /\ nth_error (lkeys metaf i j l) p = Some k /\
+                In e (edges_value_m metaf (rel ++ [k]) x).
 Proof.
-  induction l as [|x l IH]; intros i e; simpl.
-  - split; [tauto|]. intros [j [y [H _]]]. destruct j; discriminate.
-  - rewrite in_app_iff, IH. split.
-    + intros [H|[j [y [Hn Hy]]]].
-      * exists 0, x. rewrite Nat.add_0_r. auto.
-      * exists (S j), y. rewrite Nat.add_succ_r. auto.
-    + intros [[|j] [y [Hn Hy]]].
-      * inversion Hn; subst. rewrite Nat.add_0_r in Hy. auto.
-      * right. exists j, y. rewrite Nat.add_succ_r in Hy. auto.
+  induction l as [|x l IH]; intros i j e; simpl.
+  - split; [tauto|]. intros [p [y [k [H _]]]]. destruct p; discriminate.
+  - destruct (flagged metaf x); rewrite in_app_iff, IH; split.
+    + intros [H|[p [y [k [Hn [Hk Hy]]]]]].
+      * exists 0%nat, x, (meta_key j). auto.
+      * exists (S p), y, k. auto.
+    + intros [[|p] [y [k [Hn [Hk Hy]]]]]; simpl in *.
+      * inversion Hn; inversion Hk; subst. auto.
+      * right. exists p, y, k. auto.
+    + intros [H|[p [y [k [Hn [Hk Hy]]]]]].
+      * exists 0%nat, x, (dec i). auto.
+      * exists (S p), y, k. auto.
+    + intros [[|p] [y [k [Hn [Hk Hy]]]]]; simpl in *.
+      * inversion Hn; inversion Hk; subst. auto.
+      * right. exists p, y, k. auto.
 Qed.
 
+(* the keys of one list are pairwise different *)
+Lemma digits_nounderscore : forall d, existsb (N.eqb 95) (digits d) = false.
+Proof. induction d; simpl; auto. Qed.
+
+Lemma dec_not_meta a b : dec a <> meta_key b.
+Proof.
+  intros E. assert (H := digits_nounderscore (Nat.to_uint a)). unfold dec in E. rewrite E in H.
+  simpl in H. discriminate.
+Qed.
+
+Lemma meta_key_inj a b : meta_key a = meta_key b -> a = b.
+Proof. unfold meta_key. intros E. apply app_inv_head in E. apply dec_inj; auto. Qed.
+
+Lemma lkeys_shape : forall l i j k, In k (lkeys metaf i j l) ->
+  (exists a, (i <= a)%nat /\ k = dec a) \/ (exists b, (j <= b)%nat /\ k = meta_key b).
+Proof.
+  induction l as [|x l IH]; intros i j k H; simpl in H; [tauto|].
+  destruct (flagged metaf x); destruct H as [<-|H].
+  - right. exists j. auto.
+  - destruct (IH _ _ _ H) as [[a [L E]]|[b [L E]]]; [left; exists a; auto | right; exists b; split; auto; lia].
+  - left. exists i. auto.
+  - destruct (IH _ _ _ H) as [[a [L E]]|[b [L E]]]; [left; exists a; split; auto; lia | right; exists b; auto].
+Qed.
+
+Lemma lkeys_nodup : forall l i j, NoDup (lkeys metaf i j l).
+Proof.
+  induction l as [|x l IH]; intros i j; simpl; [constructor|].
+  destruct (flagged metaf x); constructor; auto; intros H; apply lkeys_shape in H;
+    destruct H as [[a [L E]]|[b [L E]]].
+  - symmetry in E. exact (dec_not_meta _ _ E).
+  - apply meta_key_inj in E. lia.
+  - apply dec_inj in E. lia.
+  - exact (dec_not_meta _ _ E).
+Qed.
+
+Lemma lkeys_length : forall l i j, length (lkeys metaf i j l) = length l.
+Proof. induction l as [|x l IH]; intros i j; simpl; auto. destruct (flagged metaf x); simpl; auto. Qed.
+
 Lemma edict_In rel l e : In e (concat (map snd (sort_keys (groups rel l)))) <->
-  exists k x, In (k, x) l /\ In e (edges_value_s (rel ++ [k]) x).
+  exists k x, In (k, x) l /\ In e (edges_value_m metaf (rel ++ [k]) x).
 Proof.
   rewrite in_concat. split.
   - intros [es [Hes He]]. apply in_map_iff in Hes. destruct Hes as [[k es'] [<- Hg]].
     apply (proj1 (sort_keys_In _ _)) in Hg. unfold groups in Hg. apply in_map_iff in Hg.
     destruct Hg as [[k' x] [Eg Hin]]. simpl in Eg. inversion Eg; subst. exists k, x. auto.
-  - intros [k [x [Hin He]]]. exists (edges_value_s (rel ++ [k]) x). split; auto.
-    apply in_map_iff. exists (k, edges_value_s (rel ++ [k]) x). split; auto.
+  - intros [k [x [Hin He]]]. exists (edges_value_m metaf (rel ++ [k]) x). split; auto.
+    apply in_map_iff. exists (k, edges_value_m metaf (rel ++ [k]) x). split; auto.
     apply (proj2 (sort_keys_In _ _)). unfold groups. apply in_map_iff. exists (k, x). auto.
 Qed.
 
-(* every label of edges_value_s rel v extends rel *)
-Lemma edges_value_prefix : forall v rel e, In e (edges_value_s rel v) -> prefix rel (fst e).
+(* every label of edges_value_m metaf rel v extends rel *)
+Lemma edges_value_prefix : forall v rel e, In e (edges_value_m metaf rel v) -> prefix rel (fst e).
 Proof.
   induction v as [| | |n|l IH|l IH] using value_ind2; intros rel e He; try (simpl in He; tauto).
   - simpl in He. destruct He as [<-|[]]. exists []. simpl. rewrite List.app_nil_r. auto.
-  - rewrite edges_value_list in He. apply elist_In in He. destruct He as [j [x [Hn He]]].
+  - rewrite edges_value_list in He. apply elist_In in He. destruct He as [j [x [k [Hn [Hk He]]]]].
     rewrite Forall_forall in IH. destruct (IH x (nth_error_In _ _ Hn) _ _ He) as [c Hc].
-    exists ([dec (0 + j)] ++ c). rewrite Hc, <- List.app_assoc. auto.
-  - rewrite edges_value_dict in He. apply edict_In in He. destruct He as [k [x [Hn He]]].
+    exists ([k] ++ c). rewrite Hc, <- List.app_assoc. auto.
+  - rewrite edges_value_dict_m in He. apply edict_In in He. destruct He as [k [x [Hn He]]].
     rewrite Forall_forall in IH. destruct (IH (k, x) Hn _ _ He) as [c Hc]. simpl in Hc.
     exists ([k] ++ c). rewrite Hc, <- List.app_assoc. auto.
 Qed.
@@ -654,20 +710,24 @@ Proof.
 Qed.
 
 Lemma edges_value_unamb : forall v rel, dict_ok v = true ->
-  forall e1 e2, In e1 (edges_value_s rel v) -> In e2 (edges_value_s rel v) ->
+  forall e1 e2, In e1 (edges_value_m metaf rel v) -> In e2 (edges_value_m metaf rel v) ->
                 prefix (fst e1) (fst e2) -> e1 = e2.
 Proof.
   induction v as [| | |n|l IH|l IH] using value_ind2; intros rel Hok e1 e2 H1 H2 Hp;
     try (simpl in H1; tauto).
   - simpl in H1, H2. destruct H1 as [<-|[]]. destruct H2 as [<-|[]]. auto.
   - rewrite edges_value_list in H1, H2. apply elist_In in H1, H2.
-    destruct H1 as [j1 [x1 [Hn1 He1]]]. destruct H2 as [j2 [x2 [Hn2 He2]]].
-    assert (Ej : dec (0 + j1) = dec (0 + j2)).
+    destruct H1 as [j1 [x1 [k1 [Hn1 [Hk1 He1]]]]]. destruct H2 as [j2 [x2 [k2 [Hn2 [Hk2 He2]]]]].
+    assert (Ek : k1 = k2).
     { eapply prefix_same_key; [eapply edges_value_prefix; eauto | eapply edges_value_prefix; eauto | auto]. }
-    apply dec_inj in Ej. simpl in Ej. subst j2. rewrite Hn1 in Hn2. inversion Hn2; subst x2.
+    subst k2.
+    assert (Ej : j1 = j2).
+    { apply (proj1 (NoDup_nth_error (lkeys metaf 0 0 l)) (lkeys_nodup l 0%nat 0%nat)); [|congruence].
+      apply nth_error_Some. congruence. }
+    subst j2. rewrite Hn1 in Hn2. inversion Hn2; subst x2.
     rewrite Forall_forall in IH. simpl in Hok. rewrite forallb_forall in Hok.
     eapply (IH x1 (nth_error_In _ _ Hn1)); eauto. apply Hok. eapply nth_error_In; eauto.
-  - rewrite edges_value_dict in H1, H2. apply edict_In in H1, H2.
+  - rewrite edges_value_dict_m in H1, H2. apply edict_In in H1, H2.
     destruct H1 as [k1 [x1 [Hn1 He1]]]. destruct H2 as [k2 [x2 [Hn2 He2]]].
     assert (Ek : k1 = k2).
     { eapply prefix_same_key; [eapply edges_value_prefix; eauto | eapply edges_value_prefix; eauto | auto]. }
@@ -694,15 +754,15 @@ Proof.
 Qed.
 
 Inductive edge_kind (n : nat) (nd : node) (e : edge) : Prop :=
-| EK_field : forall kv c, In kv (fields nd) -> In e (edges_value_s [fst kv] (snd kv)) ->
+| EK_field : forall kv c, In kv (fields nd) -> In e (edges_value_m metaf [fst kv] (snd kv)) ->
                           fst e = fst kv :: c -> edge_kind n nd e
 | EK_pre : forall j t, nth_error (pre nd) j = Some t -> e = ([k_pre; dec j], t) -> edge_kind n nd e
 | EK_init : forall j t, nth_error (init nd) j = Some t -> e = ([k_init; dec j], t) -> edge_kind n nd e
 | EK_task : forall t, task nd = Some t -> t <> n -> e = ([], t) -> edge_kind n nd e.
 
-Lemma node_edges_kind n nd e : In e (seal_edges n nd) -> edge_kind n nd e.
+Lemma node_edges_kind n nd e : In e (seal_edges_m metaf n nd) -> edge_kind n nd e.
 Proof.
-  unfold seal_edges. rewrite !in_app_iff. intros [H|[H|[H|H]]].
+  unfold seal_edges_m. rewrite !in_app_iff. intros [H|[H|[H|H]]].
   - apply in_flat_map in H. destruct H as [kv [Hkv He]].
     destruct (edges_value_prefix _ _ _ He) as [c Hc]. eapply EK_field; eauto.
   - unfold edges_tasks in H. apply mapi_from_In in H. destruct H as [j [t [Hn ->]]]. eapply EK_pre; eauto.
@@ -717,7 +777,7 @@ Proof. intros [c E]. inversion E; subst. split; auto. exists c; auto. Qed.
 
 Lemma k_pre_init : k_pre <> k_init. Proof. discriminate. Qed.
 
-Theorem names_wf_unamb h : names_wf h -> task_targets_cut h -> all_unamb seal_edges h.
+Theorem names_wf_unamb_m h : names_wf h -> task_targets_cut h -> all_unamb (seal_edges_m metaf) h.
 Proof.
   intros W T n e1 e2 H1 H2 X1 X2.
   unfold out_edges in H1, H2. destruct (nth_error h n) as [nd|] eqn:En; [|destruct H1].
@@ -755,6 +815,14 @@ Proof.
       apply dec_inj in Ej. subst j2. congruence.
 Qed.
 
+
+End EdgesM.
+
+(* every element counts (the code before fixes/C17-4.diff) *)
+Theorem names_wf_unamb h : names_wf h -> task_targets_cut h -> all_unamb seal_edges h.
+Proof. exact (names_wf_unamb_m no_meta h). Qed.
+Lemma edges_value_dict rel l : edges_value_s rel (VDict l) = concat (map snd (sort_keys (groups no_meta rel l))).
+Proof. exact (edges_value_dict_m no_meta rel l). Qed.
 
 (* decidable forms *)
 Lemma names_wfb_sound h : names_wfb h = true -> names_wf h.
